@@ -23,7 +23,7 @@ LEVEL = 'exploration'
 REGISTERED = True
 RULE = ('case = one generated source file; kinds: tree (random expression trees up to depth 6 over the manual\'s operator and function '
         'tables with boundary operands, each assembled fully bracketed and with only the brackets the rank table requires), func '
-        '(bit/string/numeric functions over boundary arguments), notation (integer constants in every enabled notation x RADIX 2..36 x '
+        '(bit/string/numeric functions over boundary arguments), ufunc (values routed through user-defined FUNCTIONs next to the same formula written inline), notation (integer constants in every enabled notation x RADIX 2..36 x '
         'INTSYNTAX/RELAXED on 8 targets), error (expressions the manual defines as errors), lex (documented constant spellings inside a '
         'formula); distinct = distinct expression text (notation: distinct (target, switches, radix, notation, token)); non-trivial = the '
         'expression contains at least one operator or function / the constant is not a plain decimal number')
@@ -52,11 +52,11 @@ TREES_PER_CASE = 250
 
 def plan(tier, seed):
     if tier == 'quick':
-        n = {'tree': 90, 'func': 14, 'notation': 50, 'error': 12, 'lex': 2}
+        n = {'tree': 90, 'func': 14, 'notation': 50, 'error': 12, 'lex': 2, 'ufunc': 10}
     else:
-        n = {'tree': 2400, 'func': 160, 'notation': 700, 'error': 120, 'lex': 4}
+        n = {'tree': 2400, 'func': 160, 'notation': 700, 'error': 120, 'lex': 4, 'ufunc': 200}
     cases = []
-    for kind in ('tree', 'func', 'notation', 'error', 'lex'):
+    for kind in ('tree', 'func', 'notation', 'error', 'lex', 'ufunc'):
         cases += [{'kind': kind} for _ in range(n[kind])]
     return cases
 
@@ -66,15 +66,17 @@ def plan(tier, seed):
 
 class Item:
     """one expression to be observed: text, expected value, how to judge"""
-    __slots__ = ('text', 'val', 'approx', 'node', 'form', 'status', 'got', 'detail', 'tag')
+    __slots__ = ('text', 'val', 'approx', 'node', 'form', 'status', 'got', 'detail', 'tag', 'raw', 'strict')
 
-    def __init__(self, text, val, approx=False, node=None, form='full', tag=None):
+    def __init__(self, text, val, approx=False, node=None, form='full', tag=None, strict=False):
         self.text = text
         self.val = val
         self.approx = approx
         self.node = node
         self.form = form
         self.tag = tag
+        self.raw = None
+        self.strict = strict      # floats: the sign of zero counts as well
         self.status = None      # 'ok' | 'value' | 'type' | 'rejected' | 'crash' | 'unobserved'
         self.got = None
         self.detail = ''
@@ -133,6 +135,7 @@ def slot_bytes(img, i):
 def judge(it, data):
     """compare the bytes found in the slot with the model value"""
     t, v = it.val
+    it.raw = data
     if t == 'i':
         if len(data) != 8:
             it.status, it.detail = 'type', 'expected 8 bytes of an integer, slot holds %d bytes %s' % (len(data), data[:24].hex())
@@ -155,7 +158,9 @@ def judge(it, data):
         elif it.approx:
             it.status = 'ok' if abs(got - v) <= 1e-9 * max(1.0, abs(v)) else 'value'
         else:
-            it.status = 'ok' if (got == v) else 'value'       # +0.0 == -0.0 deliberately
+            # +0.0 == -0.0 unless the case asks for the bit pattern
+            same = got == v and (not it.strict or struct.pack('>d', got) == struct.pack('>d', v))
+            it.status = 'ok' if same else 'value'
         return
     if len(data) < 1:
         it.status, it.detail = 'type', 'empty slot'
@@ -265,6 +270,21 @@ def coerced_classes(n):
     return ','.join(out)
 
 
+def arg_class(v):
+    """class of an actual argument of a user-defined function: type, and for strings whether
+    characters are present that need an escape when the value is turned back into text"""
+    if v[0] != 's':
+        return v[0]
+    c = 's'
+    if any(b < 32 or b == 127 for b in v[1]):
+        c += '-ctrl'
+    if any(b > 127 for b in v[1]):
+        c += '-high'
+    if any(b in b'"\'\\' for b in v[1]):
+        c += '-quote'
+    return c
+
+
 def pos_class(pos, n):
     if pos < 0:
         return 'neg-big' if pos < -(1 << 31) else 'neg'
@@ -290,7 +310,7 @@ def node_key(n, status, detail=None):
     """stable name of the kind of disagreement at node n"""
     what = {'value': 'value', 'type': 'type', 'rejected': 'rejected', 'crash': 'crash'}[status]
     if what == 'crash':
-        return 'crash:%s:%s' % (n.op if n.kind in ('bin', 'un', 'call') else n.kind, crash_class(detail))
+        return 'crash:%s:%s' % (n.op if n.kind in ('bin', 'un', 'call') else ('user-function' if n.kind == 'ucall' else n.kind), crash_class(detail))
     if n.kind == 'lit':
         t = n.val[0]
         if t == 'i':
@@ -307,6 +327,8 @@ def node_key(n, status, detail=None):
         return '%s:symbol:%s' % (what, n.val[0])
     if n.kind == 'tri':
         return '%s:string-order:%s' % (what, '/'.join(n.op))
+    if n.kind == 'ucall':
+        return '%s:user-function:%s' % (what, tclasses(n.kids, arg_class))
     if n.kind in ('un', 'bin'):
         return '%s:%s:%s' % (what, n.op, coerced_classes(n) if what == 'value' else tclasses(n.kids, E.vtype))
     # call
@@ -430,6 +452,8 @@ def record_reach(out, node):
             out.sets['operand_classes'].add('%s:%s' % (s.op, tclasses(s.kids)))
         elif s.kind == 'call':
             out.sets['functions'].add(s.op)
+        elif s.kind == 'ucall':
+            out.sets['user_function_argument_types'].add(tclasses(s.kids, E.vtype))
         elif s.kind == 'tri':
             out.sets['operators'].add('/'.join(s.op))
         elif s.kind == 'lit':
@@ -476,6 +500,47 @@ def case_func(ctx, n):
     observe(ctx, items, prologue, 'func')
     finish_items(ctx, items, prologue)
     out.sample = {'kind': 'func', 'expressions': len(items), 'first': [it.text for it in items[:3]]}
+
+
+def case_ufunc(ctx, n):
+    """values that travel through user-defined FUNCTIONs: "all parameters are calculated once and
+    are then inserted into the function's formula".  Each call is laid down next to the same
+    formula written inline (every parameter replaced by the bracketed argument); both must equal
+    the model bit for bit (sign of zero included; libm results within the tolerance), and they
+    must equal each other bit for bit whatever libm does."""
+    out = ctx.out
+    g = G.Gen(ctx.rng)
+    syms = g.make_symbols()
+    funcs, calls = G.ufunc_suite(g, 10, n)
+    prologue = HEADER + syms + [f.definition() for f in funcs]
+    for f in funcs:
+        out.sets['user_function_shapes'].add('identity' if f.ptypes is None else ('%d-parameter%s' % (len(f.ptypes), ' linear' if f.linear else '')))
+    items = []
+    pairs = []
+    for node, inline in calls:
+        record_reach(out, node)
+        t = E.render(node, 'full')
+        a = Item(t, node.val, node.approx, node, 'full', strict=True)
+        b = Item(E.render(inline, 'full'), node.val, node.approx, inline, 'full', strict=True)
+        pairs.append((a, b))
+        items += [a, b]
+        out.sigs.add(sig_of(t))
+    out.obs['expressions'] += len(items)
+    out.obs['user_function_calls'] += len(pairs)
+    out.sample = {'kind': 'ufunc', 'functions': [f.definition() for f in funcs[:4]], 'first': [a.text for a, b in pairs[:3]]}
+    observe(ctx, items, prologue, 'ufn')
+    for a, b in pairs:
+        if a.raw is not None and b.raw is not None:
+            if a.raw == b.raw:
+                out.obs['user_function_calls_identical_to_inline'] += 1
+            else:
+                cls = tclasses(a.node.kids, arg_class) if a.node.kind == 'ucall' else 'inside-formula'
+                out.violate('user-function:differs-from-inline:%s' % cls,
+                            '`%s` lays down %s, the same formula written inline `%s` lays down %s (manual: parameters are calculated once and inserted into the formula)'
+                            % (a.text, a.raw.hex(), b.text, b.raw.hex()))
+    # a disagreement with the model that the inline formula shows as well lies in the formula's
+    # operators (localised there); the call is localised only when the inline formula agrees
+    finish_items(ctx, [b for a, b in pairs] + [a for a, b in pairs if b.status == 'ok'], prologue)
 
 
 def case_lex(ctx):
@@ -684,6 +749,8 @@ def run_case(case, ctx):
             case_notation(ctx, 120)
         elif kind == 'error':
             case_error(ctx, 150)
+        elif kind == 'ufunc':
+            case_ufunc(ctx, 240)
         else:
             case_lex(ctx)
     except Abort:
